@@ -69,6 +69,18 @@ Proof.
   destruct (policy_key_required r d v E) as (dv & Hin & Hd). exfalso. exact (Hn dv Hin Hd).
 Qed.
 
+(* --- 4. more requirements never lower an import (requirements of bodies, functions and inlined models are merged into the owner's) --- *)
+Theorem policy_monotone (r extra : req) d v :
+  lookup String.eqb d (max_opset_policy r) = Some v ->
+  exists w, lookup String.eqb d (max_opset_policy (r ++ extra)%list) = Some w /\ v <= w /\
+            lookup String.eqb d (max_opset_policy (extra ++ r)%list) = Some w.
+Proof.
+  intros H. destruct (policy_is_max r d v H) as [_ (dv & Hin & Hd & Hv)].
+  destruct (policy_covers (r ++ extra)%list dv (in_or_app _ _ _ (or_introl Hin))) as (w & Hl & Hle).
+  rewrite Hd in Hl. exists w. split; [exact Hl|]. split; [lia|].
+  rewrite <- Hl. apply policy_depends_on_requirement_set. intros x. split; intros Hx; apply in_app_or in Hx; apply in_or_app; tauto.
+Qed.
+
 Example policy_example :
   max_opset_policy [("ai.onnx"%string, 15); (""%string, 19); ("my.dom"%string, 2); (""%string, 17)] = [(""%string, 19); ("my.dom"%string, 2)] /\
   max_opset_policy [(""%string, 17); ("my.dom"%string, 2); (""%string, 19); ("ai.onnx"%string, 15)] = [(""%string, 19); ("my.dom"%string, 2)].
